@@ -217,9 +217,16 @@ class PETS(Adapter):
     update_before_act = True
 
     def cfg(self, rng, env_cfg, T=20):
+        c = self._cfg(rng, env_cfg, T)
+        # a model fit needs int(0.7 * n_samples) >= batch_size, otherwise it legitimately processes no batch
+        if c["learning_starts"] < 6:
+            c["batch_size"] = 2
+        return c
+
+    def _cfg(self, rng, env_cfg, T=20):
         return {
             "learning_starts": rng.choice([4, 5, 6, 8]), "n_steps_per_iteration": rng.choice([1, 2, 3, 5]),
-            "buffer_size": rng.choice([4, 8, 16, 1000]), "plan_horizon": rng.choice([1, 2, 3]), "n_particles": 2,
+            "buffer_size": rng.choice([8, 16, 1000]), "plan_horizon": rng.choice([1, 2, 3]), "n_particles": 2,
             "n_samples": 10, "n_opt_iter": rng.choice([1, 2]), "init_with_previous_plan": rng.random() < 0.5,
             "hidden": 4, "n_ensemble": 2, "batch_size": rng.choice([2, 4]),
         }
@@ -274,7 +281,7 @@ class PETS(Adapter):
         return []
 
     def opt_steps_per_update(self, run, name):
-        return None  # number of ensemble optimiser steps per model fit is not part of the documented schedule
+        return ("min", 1)  # the number of steps per model fit is not documented, but a fit with data makes at least one
 
     def acting_obs(self, rec):
         o = np.asarray(rec[1][0])
